@@ -525,23 +525,28 @@ def c05(pid, tier, seed):
 
     rates = [1, 20, 60, 250, 255] if q else list(range(1, 256))
     plan = []
+    deep_rates = {1, 2, 3, 7, 20, 33, 60, 100, 144, 200, 250, 255}
     for R in rates:
         sel = cover20 if (q and R in (20, 255)) or not q else cover20[::7]
-        plan.append(("single_R%d" % R, [hist(s, R, "single", False) for s in sel + (lifted20 if R == 20 or not q else (lifted20[::2] if R == 250 else lifted20[::4]))] + [hist(s, R, "single", True) for s in sel[::5]]
-                     + [hist(s, R, "single", False) for s in (deep20 + steady if (R in (20, 255) or not q) else steady[:1])]))
-    plan.append(("multi_R20", [hist(s, 20, "multi", False) for s in cover20[::3] + deep20[:8] + steady[:1]]))
+        lift = lifted20 if R == 20 or (not q and R in deep_rates) else (lifted20[::2] if R == 250 else lifted20[::4])
+        deep = deep20 + steady if (R in (20, 255) or (not q and R in deep_rates)) else steady[:1]
+        plan.append(("single_R%d" % R, lambda R=R, sel=sel, lift=lift, deep=deep: [hist(s, R, "single", False) for s in sel + lift] + [hist(s, R, "single", True) for s in sel[::5]]
+                     + [hist(s, R, "single", False) for s in deep]))
+    plan.append(("multi_R20", lambda: [hist(s, 20, "multi", False) for s in cover20[::3] + deep20[:8] + steady[:1]]))
     # ordinary requests of a long-running member while short-lived members come and go (forced draws in between)
-    plan.append(("multi_churn_R20", [hist(s, 20, "multi", False) for s in churn20]))
-    plan.append(("multi_churn_R1", [hist(s, 1, "multi", False) for s in churn20[::4]]))
+    plan.append(("multi_churn_R20", lambda: [hist(s, 20, "multi", False) for s in churn20]))
+    plan.append(("multi_churn_R1", lambda: [hist(s, 1, "multi", False) for s in churn20[::4]]))
     # a bar that is complete but not finished (position >= length from the start) is throttled like any other
-    plan.append(("single_full_R20", [hist(s, 20, "single", False, length=0) for s in cover20[::4] + steady[:1]]))
-    plan.append(("multi_full_R20", [hist(s, 20, "multi", False, length=0) for s in cover20[::6] + steady[:1]]))
-    plan.append(("posgate_full", [hist(s, 1, "pos", False, length=3) for s in cover10[::3] + steady[:1]]))
+    plan.append(("single_full_R20", lambda: [hist(s, 20, "single", False, length=0) for s in cover20[::4] + steady[:1]]))
+    plan.append(("multi_full_R20", lambda: [hist(s, 20, "multi", False, length=0) for s in cover20[::6] + steady[:1]]))
+    plan.append(("posgate_full", lambda: [hist(s, 1, "pos", False, length=3) for s in cover10[::3] + steady[:1]]))
     # the limiter of the real console::Term target (TargetKind::Term), driven through a pseudo-terminal
-    plan.append(("pty_R20", [hist(s, 20, "pty", False) for s in cover20[::3] + lifted20[::6] + steady[:1]]))
-    plan.append(("pty_R255", [hist(s, 255, "pty", False) for s in cover20[::6] + steady[:1]]))
-    plan.append(("posgate", [hist(s, 1, "pos", False) for s in cover10 + (lifted10[::2] if q else lifted10) + steady]))
-    for name, hs in plan:
+    plan.append(("pty_R20", lambda: [hist(s, 20, "pty", False) for s in cover20[::3] + lifted20[::6] + steady[:1]]))
+    plan.append(("pty_R255", lambda: [hist(s, 255, "pty", False) for s in cover20[::6] + steady[:1]]))
+    plan.append(("posgate", lambda: [hist(s, 1, "pos", False) for s in cover10 + (lifted10[::2] if q else lifted10) + steady]))
+    # the histories of a family are built when its turn comes (all rates at once do not fit in memory)
+    for name, mk in plan:
+        hs = mk()
         bad, st, total = vlib.replay_and_judge("%s_%s" % (pid, name), hs, "api", "Trace_Throttle", shards=8)
         nh += len(hs)
         nrec += total
